@@ -214,6 +214,7 @@ func GenTable(r *core.Rand, o GenOpts) *Table {
 				if len(rs.Consumes) > 0 && r.Chance(1, 6) {
 					rs.NoCT = []string{r.Pick(Methods)}
 				}
+				rs.ViaSvc = r.Chance(1, 5)
 			}
 			if o.Conds && r.Chance(1, 4) {
 				for k := 0; k < r.Range(1, 2); k++ {
